@@ -616,7 +616,7 @@ Theorem step_cz u c w o w' :
   total u w' <= total u w + cz u (arrivals [o]) /\
   (present u w \/ In u (arrivals [o]) -> present u w').
 Proof.
-  intro H. destruct o as [ts|us|us|e|strat]; cbn [step] in H.
+  intro H. destruct o as [ts|us|us|e|strat|us|us]; cbn [step] in H.
   - destruct (intake ts (cancel_list (st w)) []) as [[keep cl] evs] eqn:Ei. injection H as <-.
     pose proof (intake_cz u _ _ _ _ _ _ Ei) as Hi. change (E []) with (@nil Z) in Hi. rewrite cz_nil in Hi.
     assert (Ha : arrivals [Arrive ts] = uids ts) by (unfold arrivals; simpl; apply app_nil_r).
@@ -643,6 +643,11 @@ Proof.
       destruct K as [K|[K|K]]; [left; left; exact K| |].
       * destruct (Bp (or_introl K)) as [R|R]; [left; right; exact R|right; left; exact R].
       * destruct (Bp (or_intror K)) as [R|R]; [left; right; exact R|right; left; exact R].
+  - injection H as <-. unfold total, arrivals, present, set_cl. cbn [map concat log st q_sched waitpool].
+    rewrite cz_nil. split; [lia|]. intros [K|[]]. exact K.
+  - injection H as <-. unfold total, arrivals, present. cbn [map concat log st q_sched waitpool].
+    rewrite Q_app. change (Q [QCancel us]) with (@nil Z). rewrite app_nil_r, cz_nil. split; [lia|].
+    intros [K|[]]. exact K.
 Qed.
 
 Lemma arrivals_cons o r : arrivals (o :: r) = arrivals [o] ++ arrivals r.
